@@ -5,6 +5,7 @@ import (
 	"go/token"
 	"go/types"
 	"regexp"
+	"strconv"
 	"strings"
 	"unicode"
 
@@ -534,46 +535,59 @@ func rulePrinters(p *Prog, r *Report) {
 			continue
 		}
 		key := fmt.Sprintf("%s:ast.(*%s).String:%s", rule, f.Node, f.SML)
-		joins := callSites(fn, "strings.Join")
-		if len(joins) != 1 {
-			r.unk(rule, key, p.Pos(fn.Pos()), "the printer does not join its element texts with strings.Join")
-			continue
-		}
-		var bad []string
-		for _, n := range []int64{0, 3} {
-			in := NewInterp(p)
-			if f.ByteSz != 0 {
-				in.PathBind["p0.byteSize"] = int64Val(int64(f.ByteSz))
+		// First by evaluation: with concrete elements and no variables the
+		// printer's result must be the SML text itself, however it is put together.
+		if d, decided, good := printsSML(p, fn, f); decided {
+			if good {
+				r.ok(rule, key, p.Pos(fn.Pos()), d)
+			} else {
+				r.bad(rule, key, p.Pos(fn.Pos()), d)
 			}
-			in.PathBind["p0.values"] = Val{K: KSlice, S: "p0.values", Len: int(n)}
-			in.Bind = func(v ssa.Value, fr *frame) (Val, bool) {
-				if v == ssa.Value(joins[0]) {
-					return strVal("1 2 3"), true
+			goto rest
+		}
+		{
+			joins := callSites(fn, "strings.Join")
+			if len(joins) != 1 {
+				r.unk(rule, key, p.Pos(fn.Pos()), "the printer does not join its element texts with strings.Join")
+				continue
+			}
+			var bad []string
+			for _, n := range []int64{0, 3} {
+				in := NewInterp(p)
+				if f.ByteSz != 0 {
+					in.PathBind["p0.byteSize"] = int64Val(int64(f.ByteSz))
 				}
-				return Val{}, false
-			}
-			out := in.Run(fn, defaultArgs(fn), nil)
-			want := fmt.Sprintf("<%s[%d] 1 2 3>", f.SML, n)
-			if n == 0 {
-				want = fmt.Sprintf("<%s[0]>", f.SML)
-			}
-			okAny := false
-			var got []string
-			for _, rv := range out.Frame.ReturnVals() {
-				got = append(got, rv[0].String())
-				if rv[0].K == KStr && rv[0].S == want {
-					okAny = true
+				in.PathBind["p0.values"] = Val{K: KSlice, S: "p0.values", Len: int(n)}
+				in.Bind = func(v ssa.Value, fr *frame) (Val, bool) {
+					if v == ssa.Value(joins[0]) {
+						return strVal("1 2 3"), true
+					}
+					return Val{}, false
+				}
+				out := in.Run(fn, defaultArgs(fn), nil)
+				want := fmt.Sprintf("<%s[%d] 1 2 3>", f.SML, n)
+				if n == 0 {
+					want = fmt.Sprintf("<%s[0]>", f.SML)
+				}
+				okAny := false
+				var got []string
+				for _, rv := range out.Frame.ReturnVals() {
+					got = append(got, rv[0].String())
+					if rv[0].K == KStr && rv[0].S == want {
+						okAny = true
+					}
+				}
+				if !okAny || len(got) != 1 {
+					bad = append(bad, fmt.Sprintf("a node of %d elements prints %v, the SML form is %q", n, got, want))
 				}
 			}
-			if !okAny || len(got) != 1 {
-				bad = append(bad, fmt.Sprintf("a node of %d elements prints %v, the SML form is %q", n, got, want))
+			if len(bad) > 0 {
+				r.bad(rule, key, p.Pos(fn.Pos()), strings.Join(bad, "; "))
+			} else {
+				r.ok(rule, key, p.Pos(fn.Pos()), fmt.Sprintf("prints <%s[n] …> with its own keyword and element count", f.SML))
 			}
 		}
-		if len(bad) > 0 {
-			r.bad(rule, key, p.Pos(fn.Pos()), strings.Join(bad, "; "))
-		} else {
-			r.ok(rule, key, p.Pos(fn.Pos()), fmt.Sprintf("prints <%s[n] …> with its own keyword and element count", f.SML))
-		}
+	rest:
 		if seen[f.Node] {
 			continue
 		}
@@ -672,4 +686,89 @@ func rulePrinters(p *Prog, r *Report) {
 		}
 	}
 	r.Floor(rule, 20)
+}
+
+// printsSML evaluates an array node's String() on concrete elements (no
+// variables) and compares the result with the SML text of those elements.
+// decided is false when the evaluation does not yield a single constant string.
+func printsSML(p *Prog, fn *ssa.Function, f itemFormat) (detail string, decided, good bool) {
+	obj := p.Pkgs["ast"].Types.Scope().Lookup(f.Node)
+	if obj == nil {
+		return "", false, false
+	}
+	st, ok := obj.Type().Underlying().(*types.Struct)
+	if !ok {
+		return "", false, false
+	}
+	var elem types.Type
+	for i := 0; i < st.NumFields(); i++ {
+		if st.Field(i).Name() == "values" {
+			if sl, ok := st.Field(i).Type().Underlying().(*types.Slice); ok {
+				elem = sl.Elem()
+			}
+		}
+	}
+	b, ok := elem.(*types.Basic)
+	if elem == nil || !ok {
+		return "", false, false
+	}
+	var vals []Val
+	var texts []string
+	switch {
+	case f.Node == "BinaryNode":
+		for _, x := range []int64{0, 5, 255} {
+			vals = append(vals, int64Val(x))
+			texts = append(texts, "0b"+strconv.FormatInt(x, 2))
+		}
+	case b.Info()&types.IsBoolean != 0:
+		vals, texts = []Val{boolVal(true), boolVal(false), boolVal(true)}, []string{"T", "F", "T"}
+	case b.Info()&types.IsFloat != 0:
+		for _, x := range []float64{1.5, -2, 1e21} {
+			if f.ByteSz == 4 {
+				x = float64(float32(x))
+			}
+			vals = append(vals, floatVal(x))
+			texts = append(texts, strconv.FormatFloat(x, 'g', -1, 8*f.ByteSz))
+		}
+	case b.Info()&types.IsUnsigned != 0:
+		for _, x := range []int64{0, 7, 255} {
+			vals = append(vals, int64Val(x))
+			texts = append(texts, strconv.FormatInt(x, 10))
+		}
+	case b.Info()&types.IsInteger != 0:
+		for _, x := range []int64{-5, 0, 127} {
+			vals = append(vals, int64Val(x))
+			texts = append(texts, strconv.FormatInt(x, 10))
+		}
+	default:
+		return "", false, false
+	}
+	var bad []string
+	for _, n := range []int{0, 1, 3} {
+		in := NewInterp(p)
+		if f.ByteSz != 0 {
+			in.PathBind["p0.byteSize"] = int64Val(int64(f.ByteSz))
+		}
+		in.PathBind["p0.values"] = Val{K: KSlice, S: "p0.values", Len: n}
+		in.PathBind["len(p0.variables)"] = int64Val(0)
+		for i := 0; i < n; i++ {
+			in.PathBind[fmt.Sprintf("p0.values[%d]", i)] = vals[i]
+		}
+		out := in.Run(fn, defaultArgs(fn), nil)
+		rets := out.Frame.ReturnVals()
+		if len(in.Stuck) > 0 || len(rets) != 1 || rets[0][0].K != KStr || out.CanPanic {
+			return "", false, false
+		}
+		want := fmt.Sprintf("<%s[%d]>", f.SML, n)
+		if n > 0 {
+			want = fmt.Sprintf("<%s[%d] %s>", f.SML, n, strings.Join(texts[:n], " "))
+		}
+		if rets[0][0].S != want {
+			bad = append(bad, fmt.Sprintf("a node of the %d elements %v prints %q, the SML form is %q", n, texts[:n], rets[0][0].S, want))
+		}
+	}
+	if len(bad) > 0 {
+		return strings.Join(bad, "; "), true, false
+	}
+	return fmt.Sprintf("evaluated on 0, 1 and 3 concrete elements the printer yields exactly <%s[n] e1 … en> with the elements in SML notation (%s)", f.SML, strings.Join(texts, " ")), true, true
 }
